@@ -734,7 +734,7 @@ def fill_for(xt, seed, via=None):
 
 
 FORMS = ["vara", "var", "vars", "varm", "varn"]
-NRAND = {"quick": (100000, 15000), "thorough": (200000, 30000)}     # random values per wide pair and round: (variables, attributes)
+NRAND = {"quick": (60000, 10000), "thorough": (200000, 30000)}     # random values per wide pair and round: (variables, attributes)
 ROUNDS = {"quick": 1, "thorough": 8}                                 # enumeration rounds (fresh value seeds, rotated API flavours)
 
 
@@ -833,8 +833,8 @@ def campaign(ctx):
             continue            # one representative per signature and worker
         small, sp = minimise(ctx, case, real)
         ctx.failures.append({"case": small, "problems": sp, "label": "enum"})
-    n = {"quick": 2500, "thorough": 20000}[ctx.tier]
-    runner.run_hypothesis(ctx, case_strategy(ctx.tier), g, n, label="placed")
+    n = {"quick": 1500, "thorough": 20000}[ctx.tier]
+    runner.run_hypothesis(ctx, case_strategy(ctx.tier), g, n)     # no label: runner seeds with hash(label), which is salted per process
 
 
 def coverage_extra(stats, tier):
